@@ -468,13 +468,19 @@ fn sweep(rep: &mut Report) {
 
 pub fn run(ctx: &Ctx) -> i32 {
     let mut rep = Report::new();
-    sweep(&mut rep);
-    run_cases(ctx, &mut rep, "histories", ctx.cases(100_000, 3_000_000), case);
     // the forwarder as the real daemon drives it (statime-linux/src/main.rs), end to end
     let workers = (ctx.threads as u64 / 2).clamp(2, 8);
-    let sum = crate::daemon::run_part(ctx, &mut rep, ctx.cases(12 * workers, 400 * workers), workers);
+    let sum = crate::daemon::run_part(ctx, &mut rep, ctx.cases(12 * workers, 150 * workers), workers);
     if let Some(why) = &sum.skipped {
         println!("note: end-to-end daemon part skipped ({}); the other parts are unaffected", why);
+    }
+    // a violation seen on the real daemon is reported at once (see C12: an endless loop in the forwarding path would
+    // hang the in-process parts instead of being reported)
+    if rep.violations.is_empty() {
+        sweep(&mut rep);
+        run_cases(ctx, &mut rep, "histories", ctx.cases(100_000, 3_000_000), case);
+    } else {
+        println!("end-to-end part found a violation; in-process parts skipped");
     }
     finish(
         Finish {
